@@ -27,6 +27,38 @@ struct passwd *getpwnam(const char *n) { (void)n; return NULL; }
 int close(int fd) { (void)fd; return 0; }
 int openat(int dfd, const char *fn, int fl, ...) { (void)dfd; (void)fn; (void)fl; return -1; }
 
+#if defined VERIF_CBMC
+/* the task table is calloc()ed with a size computed from the colliding keys (2^k, k up to 64):
+ * an allocation of symbolic size makes the formula explode even on paths that never grow the
+ * table.  calloc/free of the table are redirected (goto-instrument --replace-calls) to two
+ * static zeroed tables: the initial 16 slots and one grown table of up to TABMAX slots;
+ * any other request flags the harness bound. */
+#if !defined TABMAX
+# define TABMAX 16
+#endif
+static struct tmap_s env_tab0[16], env_tab1[TABMAX];
+static int env_tab0_used, env_tab1_used;
+void free_real(void *p);
+void *env_calloc(size_t n, size_t sz)
+{
+	if (sz == sizeof(struct tmap_s) && n == 16U && !env_tab0_used) {
+		env_tab0_used = 1;
+		return env_tab0;
+	}
+	if (sz == sizeof(struct tmap_s) && n <= TABMAX && !env_tab1_used) {
+		env_tab1_used = 1;
+		return env_tab1;
+	}
+	env_overflow = 1;
+	return NULL;
+}
+void env_free(void *p)
+{
+	if (p == (void*)env_tab0 || p == (void*)env_tab1) return;
+	free_real(p);
+}
+#endif
+
 /* streams: one static array-backed stream per operation slot (a far-future occurrence) */
 static struct arrstrm_s ST[NOP];
 
